@@ -132,6 +132,7 @@ def _propspec(rng, kind, ids, via):
     elif name == "FREEBUSY":
         spec["shape"] = "period"
         spec["vals"] = [rng.choice(WALLS) for _ in range(rng.randint(1, 2))]
+        spec["addas"] = rng.choice(["each", "list", "list"])     # one add() per period, or one add() with a list
     elif name in XVALS:
         spec["shape"] = "xparam"
         spec["xval"] = rng.choice(XVALS[name])
@@ -382,6 +383,8 @@ def api_add(comp, p):
         comp.add(p["name"], p.get("xval", ["s", "some text"])[1], parameters=params)
     elif p["shape"] == "list":
         comp.add(p["name"], [dt(w) for w in p["vals"]], parameters=params)
+    elif p["shape"] == "period" and p.get("addas") == "list":
+        comp.add(p["name"], [(dt(w), dt(_end(w))) for w in p["vals"]], parameters=params)
     elif p["shape"] == "period":
         for w in p["vals"]:
             comp.add(p["name"], (dt(w), dt(_end(w))), parameters=params)
